@@ -839,6 +839,12 @@ class TDS(BaseRoutine):
         if self.config.refresh_event:
             system.store_switch_times(system.exist.pflow_tds)
 
+            # the schedule now starts at the current time: re-position the event pointer,
+            # skipping the event at the current time if it has been processed already
+            self._switch_idx = 0
+            if system.n_switches > 0 and system.switch_times[0] == system.dae.t and self._last_switch_t == system.dae.t:
+                self._switch_idx = 1
+
         # if not all events have been processed
         if self._switch_idx < system.n_switches:
 
